@@ -228,3 +228,6 @@ func (g *Graph) Bytes() []byte {
 	}
 	return b
 }
+
+// Attr is the ONNX attribute message.
+type Attr = onnx.AttributeProto
